@@ -215,8 +215,9 @@ def leaf_sig_fix(pr):
     return dict(scopes=pr.scopes)
 
 
-MUL_DERIVE = {"cnt": r"while \((\w+) != 0\)", "dbl": r"if \((\w+) >= \w+ - \w+\) \w+ -= \w+;\s*\w+ \+= \w+;\s*\}",
-              "acc": r"if \(\w+ >= \w+ - (\w+)\) \1 -= \w+;\s*\1 \+= \w+;\s*\}"}
+# (the comparison operators are left open: a name must not be derived through a token a change is likely to touch)
+MUL_DERIVE = {"cnt": r"while \((\w+) (?:!=|>) 0\)", "dbl": r"if \((\w+) (?:>=|<=|==|!=|>|<) \w+ - \w+\) \w+ -= \w+;\s*\w+ \+= \w+;\s*\}",
+              "acc": r"if \(\w+ (?:>=|<=|==|!=|>|<) \w+ - (\w+)\) \1 -= \w+;\s*\1 \+= \w+;\s*\}"}
 
 
 def fn_add(pr, contract=None):
@@ -243,7 +244,7 @@ def fn_mul_step(pr):
     extra = ", unsigned int characteristic" if pr.Pleaf == "characteristic" and pr.key in ("zp_ops", "mfs_ops") else ""
     sig = f"void _multiply_step(unsigned int* @cnt@, unsigned int* @acc@, unsigned int* @dbl@, unsigned int* @tmp@{extra})"
     d = dict(MUL_DERIVE)
-    d["tmp"] = r"(\w+) = \w+;\s*if \(\w+ >= \w+ - \w+\) \1 -= "
+    d["tmp"] = r"(\w+) = \w+;\s*if \(\w+ (?:>=|<=|==|!=|>|<) \w+ - \w+\) \1 -= "
     return Fn(pr.path, pr.mul_sig, "_multiply_step", c_mul_step(pr.Pleaf, "@cnt@", "@acc@", "@dbl@").replace("temp_b", "@tmp@"),
               piece={"kind": "loop", "ordinal": 0, "sig": sig, "byref": ["@cnt@", "@acc@", "@dbl@", "@tmp@"]}, derive=d,
               canary=(rf"\(\*@dbl@\) >= {pr.Pleaf} - \(\*@dbl@\)", f"(*@dbl@) > {pr.Pleaf} - (*@dbl@)"), **leaf_sig_fix(pr))
